@@ -1386,7 +1386,12 @@ func (c *Conn) readAndProcessDatagram(ctx context.Context) (datagramProcessingSu
 
 	pkts, err := c.unpackDatagram(b[:i])
 	if err != nil {
-		return datagramProcessingSummary{}, err
+		// A datagram that does not split into records is silently discarded
+		// [RFC6347 Section-4.1.2.7, RFC9147 Section-4.5.2]; it must not end
+		// the handshake or surface through Read.
+		c.log.Debugf("discarded broken datagram: %v", err)
+
+		return datagramProcessingSummary{}, nil
 	}
 
 	var summary datagramProcessingSummary
